@@ -71,6 +71,10 @@ CLAIMED = {
   "claimed in part. (a) ClearKey licence store, stateful: a manager adds, edits and deletes keys through the API while a licence client POSTs /clearkey with mixes of known, unknown, duplicate and malformed ids; reference model kid -> key follows acknowledged operations, keeps both outcomes for an operation whose response was lost until a read resolves it, and each answer is judged against the model as it was when the request was served; duplicated requests and restarts injected. (b) cross-message agreement on every encrypted manifest the players fetch: cenc:default_KID equals the KID in the stored tenc box, ContentProtection elements equal systems x locations requested, each cenc:pssh / mspr:pro payload equals what the init segment of the same request carries. (c) every PlayReady Object seen in flight (manifest and init) is parsed by an independent reader and its key id (RFC 4122 bytes_le), LA_URL, AES-ECB checksum and, for computed keys, Microsoft's key-seed algorithm are re-derived with hashlib/uuid/pycryptodome",
   "the quantifier over all 16-byte key ids, seeds and licence-URL strings of the pure helper functions is NOT addressed by this family: only the keys that occur in runs (fixture KIDs, manager-generated random ones) are covered",
   TECH + "reference model of the key store + cross-message comparison"),
+ "C16": ("fault_enumeration",
+  "three fault families, labelled separately in the evidence. hostile: a finite catalogue built at run time from the routing table and the option registry (15 manifest/media/patch/player targets x every registered option name x 42 type-confused, boundary and hostile values; documented option combinations; every routing rule x 3 fillings of its path variables x {GET,HEAD,POST,PUT,DELETE} x {no body, empty/junk/list JSON, junk form}; the same bodies carrying a CSRF token valid for the route's service; licence-endpoint bodies) is swept in 48 slices x 5 world variants (complete, no encrypted media, no audio, no timing reference, unindexed media) x {anonymous, authorised} - cell (run index) fixed by a stride permutation, VERIF_SEED only rotates the start. storage: stored MP4 files are damaged between requests (truncation at every box boundary -1/0/+1/+4/+9, header bit flips, size-field edits) and then indexed, inspected, listed and served. inject: seeded error-injection sessions (verr/aerr, 404/410/503/504, failures=K, vod and live numbers, neighbours of the target, duplicated requests, lost responses, cookie loss, restarts) against a reference model of the documented protocol. Oracle on every delivered request: no unhandled exception, no 5xx other than the synthetic one the query asks for, and termination within a deterministic step budget (backward-jump counter via sys.monitoring, so a hang is a replayable violation rather than a wall-clock kill)",
+  "the catalogue is finite and enumerated, not exhaustive over all query strings; quick covers 144 of the 480 hostile cells per VERIF_SEED, thorough all of them; requests are atomic",
+  TECH + "fault catalogue enumeration with response and step-budget oracle + protocol reference model"),
  "C18": ("fault_enumeration",
   "the repository's BasicDashValidator runs unmodified as an actor on the virtual-time loop (real asyncio.gather concurrency over periods, adaptation sets and representations; inline executor; SimHttpClient over SimNet; SimClock). Acceptance runs: seeded (stream, template, mode, option vector, clock, latency up to 0.6 s) sessions with other clients interleaved must terminate with zero errors. Detection runs: exactly one semantic rewrite of one response per session, enumerated round-robin by run index from the catalogue {tfdt, mfhd sequence, trun data offset outside mdat, saio offset, init box mvhd/trak/mvex removed, SegmentTimeline gap, mandatory MPD attribute removed, availabilityStartTime changed on a refresh} x response position; the validator must report an error located at the corrupted element (manifest line range overlapping its AdaptationSet / the MPD element, or a message naming the segment)",
   "the validator turned out to be far from the statement (crashes, false errors and missed corruptions are listed as known findings by error site / corruption kind / media type); detection power remains for every catalogue entry on video segments in the core regime",
